@@ -5,6 +5,7 @@
 //
 //	config cap maxBytes [ keys ]
 //	o 1 key value size Put   o 2 key Get   o 3 key Has   o 4 key Peek   o 5 key Remove   o 6 Clear
+//	o 7 key value size HasOrAdd   o 8 Close   o 9 SizeInBytesContained   o 10 MaxSize
 //
 // Harness-side stubs that make a value a byte string:
 //   - values are *blob, which implements types.SerializedStoredData (GetSerialized/SetSerialized = the
@@ -20,6 +21,7 @@ import (
 	"bytes"
 	"errors"
 	"fmt"
+	"math"
 	"math/rand"
 	"sort"
 
@@ -48,6 +50,10 @@ const (
 	opPeek
 	opRemove
 	opClear
+	opHasOrAdd
+	opClose
+	opSize
+	opMaxSize
 )
 
 // ---- stubs
@@ -108,6 +114,15 @@ func addPut(h *core.History, k []byte, sz int64) {
 	h.Add(opPut, fmt.Sprintf("Put(%s,%d)", k, sz), core.B(k), core.B(valueOf(k)), core.I(sz))
 }
 
+func addHasOrAdd(h *core.History, k []byte, sz int64) {
+	h.Add(opHasOrAdd, fmt.Sprintf("HasOrAdd(%s,%d)", k, sz), core.B(k), core.B(valueOf(k)), core.I(sz))
+}
+
+func addPlain(h *core.History, code int) {
+	names := map[int]string{opClear: "Clear", opClose: "Close", opSize: "SizeInBytesContained", opMaxSize: "MaxSize"}
+	h.Add(code, names[code])
+}
+
 func addKeyOp(h *core.History, code int, k []byte) {
 	names := map[int]string{opGet: "Get", opHas: "Has", opPeek: "Peek", opRemove: "Remove"}
 	h.Add(code, fmt.Sprintf("%s(%s)", names[code], k), core.B(k))
@@ -127,16 +142,38 @@ func (comp) Gen(prop string, rng *rand.Rand, tier string) *core.History {
 	hostile := core.Chance(rng, 1, 8)    // negative sizes (rejected by the LRU; outside C17's domain)
 	withRemove := core.Chance(rng, 1, 6) // Remove / Clear (outside C17's domain; the monitor forgets the keys)
 	nops := 15 + rng.Intn(36)
+	// Close (the property is about an OPEN persister; what Close does is stated in Props/C17.v): in one
+	// history out of five, at a random point; the history goes on after it (and may close again)
+	closeAt := -1
+	if core.Chance(rng, 1, 5) {
+		closeAt = 3 + rng.Intn(nops-3)
+	}
 	for i := 0; i < nops; i++ {
 		k := core.Pick(rng, keys)
 		r := rng.Intn(100)
+		if i == closeAt || (closeAt >= 0 && i > closeAt && core.Chance(rng, 1, 25)) {
+			addPlain(h, opClose)
+			continue
+		}
 		switch {
-		case r < 55:
+		case r < 40:
 			sz := core.Pick(rng, sizes)
 			if hostile && core.Chance(rng, 1, 6) {
 				sz = -1
 			}
 			addPut(h, k, sz)
+		case r < 55:
+			sz := core.Pick(rng, sizes)
+			if hostile && core.Chance(rng, 1, 6) {
+				sz = -1
+			}
+			addHasOrAdd(h, k, sz)
+		case r < 58:
+			if core.Chance(rng, 1, 3) {
+				addPlain(h, opMaxSize)
+			} else {
+				addPlain(h, opSize)
+			}
 		case r < 70:
 			addKeyOp(h, opGet, k)
 		case r < 80:
@@ -146,7 +183,7 @@ func (comp) Gen(prop string, rng *rand.Rand, tier string) *core.History {
 		default:
 			if withRemove {
 				if core.Chance(rng, 1, 4) {
-					h.Add(opClear, "Clear")
+					addPlain(h, opClear)
 				} else {
 					addKeyOp(h, opRemove, k)
 				}
@@ -164,13 +201,21 @@ type xop struct {
 	sz   int64
 }
 
-// Exhaustive: every sequence of a fixed length over 10 op instances on 3 keys, three configurations.
+// Exhaustive: every sequence of a fixed length over two alphabets of op instances on 3 keys, three
+// configurations: 10 instances of Put/Get/Has/Peek; 8 instances with HasOrAdd and Close.
 func (comp) Exhaustive(prop string, tier string, yield func(*core.History)) {
 	a, b, c := []byte("a"), []byte("b"), []byte("c")
-	keys := [][]byte{a, b, c}
-	ops := []xop{
+	exhaustiveOver([]xop{
 		{opPut, a, 40}, {opPut, b, 40}, {opPut, c, 40}, {opPut, a, 90}, {opPut, b, 150}, {opPut, c, 0},
-		{opGet, a, 0}, {opGet, b, 0}, {opHas, c, 0}, {opPeek, a, 0}}
+		{opGet, a, 0}, {opGet, b, 0}, {opHas, c, 0}, {opPeek, a, 0}}, tier, yield)
+	exhaustiveOver([]xop{
+		{opHasOrAdd, a, 40}, {opHasOrAdd, b, 40}, {opHasOrAdd, c, 40}, {opPut, a, 40}, {opPut, b, 90},
+		{opClose, nil, 0}, {opGet, a, 0}, {opHas, a, 0}}, tier, yield)
+}
+
+func exhaustiveOver(ops []xop, tier string, yield func(*core.History)) {
+	a, b, c := []byte("a"), []byte("b"), []byte("c")
+	keys := [][]byte{a, b, c}
 	type scope struct {
 		capacity int
 		maxBytes int64
@@ -186,9 +231,14 @@ func (comp) Exhaustive(prop string, tier string, yield func(*core.History)) {
 			setConfig(h, sc.capacity, sc.maxBytes, keys)
 			for _, i := range idx {
 				x := ops[i]
-				if x.code == opPut {
+				switch x.code {
+				case opPut:
 					addPut(h, x.k, x.sz)
-				} else {
+				case opHasOrAdd:
+					addHasOrAdd(h, x.k, x.sz)
+				case opClose:
+					addPlain(h, opClose)
+				default:
 					addKeyOp(h, x.code, x.k)
 				}
 			}
@@ -232,6 +282,25 @@ func ob(v []byte, ok bool) string {
 	return core.B(v)
 }
 
+func sameKeys(x, y []interface{}) bool {
+	if len(x) != len(y) {
+		return false
+	}
+	for i := range x {
+		if x[i].(string) != y[i].(string) {
+			return false
+		}
+	}
+	return true
+}
+
+func errClassOf(err error) uint64 {
+	if err == nil {
+		return 0
+	}
+	return 1
+}
+
 func keySet(ks []interface{}) map[string]bool {
 	m := map[string]bool{}
 	for _, k := range ks {
@@ -266,6 +335,16 @@ func (comp) Run(h *core.History, scratch string) *core.Result {
 	putSoFar := map[string][]byte{}
 	everSpilled := map[string]bool{}
 	lastSize := map[string]int64{} // size of the latest accepted Put per key (situation accounting only)
+	closed := false                // a Close was executed (the harness's own knowledge, not read from the adapter)
+	var atClose map[string][]byte  // persister contents when Close was first called
+	persisterContents := func() map[string][]byte {
+		m := map[string][]byte{}
+		mdb.RangeKeys(func(k, v []byte) bool {
+			m[string(k)] = append([]byte{}, v...)
+			return true
+		})
+		return m
+	}
 
 	persisted := func(k string) ([]byte, bool) {
 		v, err := mdb.Get([]byte(k))
@@ -275,10 +354,80 @@ func (comp) Run(h *core.History, scratch string) *core.Result {
 		return v, true
 	}
 
+	// what a Put (or the Put inside an inserting HasOrAdd) must have done; flag = its return value
+	putEffects := func(name string, i int, k, v []byte, sz int64, flag, wasInDB bool, memBefore map[string]bool, valBefore map[string][]byte) {
+		if sz >= 0 {
+			if len(v) > 0 && !closed {
+				putSoFar[string(k)] = v
+			}
+			if prev, ok := lastSize[string(k)]; ok && memBefore[string(k)] {
+				if sz > prev {
+					res.Hit("re-put-grow")
+				} else if sz < prev {
+					res.Hit("re-put-shrink")
+				}
+			}
+			lastSize[string(k)] = sz
+			if !memBefore[string(k)] && wasInDB {
+				res.Hit("re-put-of-spilled-key")
+			}
+			if memBefore[string(k)] {
+				res.Hit("re-put-of-resident-key")
+			}
+			if sz > maxBytes {
+				res.Hit("oversized-single-item")
+			}
+		} else {
+			res.Hit("put-rejected-negative-size")
+		}
+		// C17: "Put's return value says whether anything was spilled"
+		memAfter := keySet(cacher.Keys())
+		left, leftNonEmpty := 0, 0
+		for kk := range memBefore {
+			if !memAfter[kk] {
+				left++
+				if len(valBefore[kk]) > 0 {
+					leftNonEmpty++
+				} else {
+					res.Hit("empty-value-skipped")
+				}
+			}
+		}
+		if flag != (left > 0) {
+			res.Failf("C17", i, "%s(%s,%d) returned %v although %d entries left the memory tier", name, k, sz, flag, left)
+		}
+		if closed {
+			// Put after Close: "return len(evictedValues) != 0" WITHOUT spilling
+			if len(rec.written) > 0 {
+				res.Failf("C17", i, "%s(%s,%d) after Close wrote %d entries to the persister", name, k, sz, len(rec.written))
+			}
+			if left > 0 {
+				res.Hit("evicted-after-close-dropped")
+			}
+			return
+		}
+		if left == leftNonEmpty && flag != (len(rec.written) > 0) {
+			res.Failf("C17", i, "%s(%s,%d) returned %v although it wrote %d entries to the persister", name, k, sz, flag, len(rec.written))
+		}
+		if left > 0 {
+			res.Hit("spill")
+			if left > 1 {
+				res.Hit("spill-of-several")
+			}
+			if memBefore[string(k)] {
+				res.Hit("re-put-larger-spills")
+			}
+			if name == "HasOrAdd" {
+				res.Hit("hasoradd-spills")
+			}
+		}
+	}
+
 	for i, op := range h.Ops {
 		a := op.Parsed()
 		var toks []string
-		memBefore := keySet(cacher.Keys())
+		keysBefore := cacher.Keys()
+		memBefore := keySet(keysBefore)
 		valBefore := map[string][]byte{}
 		for k := range memBefore {
 			v, _ := blobBytes(cacher.Peek(k))
@@ -291,63 +440,84 @@ func (comp) Run(h *core.History, scratch string) *core.Result {
 			_, wasInDB := persisted(string(k))
 			flag := ad.Put(k, &blob{b: v}, int(sz))
 			toks = append(toks, core.Lbl(1, core.Bool(flag)))
-			if sz >= 0 {
-				if len(v) > 0 {
-					putSoFar[string(k)] = v
+			putEffects("Put", i, k, v, sz, flag, wasInDB, memBefore, valBefore)
+		case opHasOrAdd:
+			k, v, sz := a[0].Bytes(), a[1].Bytes(), a[2].I64()
+			_, wasInDB := persisted(string(k))
+			has, added := ad.HasOrAdd(k, &blob{b: v}, int(sz))
+			toks = append(toks, core.Lbl(4, core.Bool(has)), core.Lbl(7, core.L(core.Bool(has), core.Bool(added))))
+			// "checks if the value exists": the first flag says whether the key was in one of the tiers the
+			// adapter consults (the memory tier; the persister while it is open)
+			present := memBefore[string(k)] || (wasInDB && !closed)
+			if has != present {
+				res.Failf("C17", i, "HasOrAdd(%s,%d) returned has=%v although in memory=%v, in the persister=%v, closed=%v", k, sz, has, memBefore[string(k)], wasInDB, closed)
+			}
+			if has {
+				// nothing is added, nothing moves
+				if added {
+					res.Failf("C17", i, "HasOrAdd(%s,%d) returned (has=true, added=true)", k, sz)
 				}
-				if prev, ok := lastSize[string(k)]; ok && memBefore[string(k)] {
-					if sz > prev {
-						res.Hit("re-put-grow")
-					} else if sz < prev {
-						res.Hit("re-put-shrink")
-					}
-				}
-				lastSize[string(k)] = sz
-				if !memBefore[string(k)] && wasInDB {
-					res.Hit("re-put-of-spilled-key")
+				if len(rec.written) > 0 || !sameKeys(keysBefore, cacher.Keys()) {
+					res.Failf("C17", i, "HasOrAdd(%s,%d) of a present key changed the memory tier or wrote to the persister", k, sz)
 				}
 				if memBefore[string(k)] {
-					res.Hit("re-put-of-resident-key")
+					res.Hit("hasoradd-present-in-memory")
+				} else {
+					res.Hit("hasoradd-present-in-persister")
 				}
-				if sz > maxBytes {
-					res.Hit("oversized-single-item")
+				if sz >= 0 && len(v) > 0 && !closed {
+					putSoFar[string(k)] = v // the key was handed to HasOrAdd and is there: it must stay
 				}
 			} else {
-				res.Hit("put-rejected-negative-size")
-			}
-			// C17: "Put's return value says whether anything was spilled"
-			memAfter := keySet(cacher.Keys())
-			left, leftNonEmpty := 0, 0
-			for kk := range memBefore {
-				if !memAfter[kk] {
-					left++
-					if len(valBefore[kk]) > 0 {
-						leftNonEmpty++
-					} else {
-						res.Hit("empty-value-skipped")
+				// "and adds it otherwise": the entry is in the memory tier afterwards; the second flag is
+				// Put's return value ("says whether anything was spilled")
+				if sz >= 0 {
+					if pv, ok := blobBytes(cacher.Peek(string(k))); !ok || !bytes.Equal(pv, v) {
+						res.Failf("C17", i, "HasOrAdd(%s,%d) returned has=false but the entry is not in the memory tier afterwards: Peek = (%x,%v)", k, sz, pv, ok)
+					}
+					res.Hit("hasoradd-inserted")
+					if !added {
+						res.Hit("hasoradd-inserted-but-added-false") // FINDING: "added" is the spill flag
 					}
 				}
+				putEffects("HasOrAdd", i, k, v, sz, added, wasInDB, memBefore, valBefore)
 			}
-			if flag != (left > 0) {
-				res.Failf("C17", i, "Put(%s,%d) returned %v although %d entries left the memory tier", k, sz, flag, left)
-			}
-			if left == leftNonEmpty && flag != (len(rec.written) > 0) {
-				res.Failf("C17", i, "Put(%s,%d) returned %v although it wrote %d entries to the persister", k, sz, flag, len(rec.written))
-			}
-			if left > 0 {
-				res.Hit("spill")
-				if left > 1 {
-					res.Hit("spill-of-several")
+		case opClose:
+			if !closed {
+				atClose = persisterContents()
+				res.Hit("close")
+				if len(atClose) > 0 {
+					res.Hit("close-with-spilled-entries")
 				}
-				if memBefore[string(k)] {
-					res.Hit("re-put-larger-spills")
-				}
+			} else {
+				res.Hit("close-again")
+			}
+			err := ad.Close()
+			closed = true
+			toks = append(toks, core.Lbl(8, core.N(errClassOf(err))))
+			if err != nil {
+				res.Failf("C17", i, "Close returned %v (memorydb.Close never fails)", err)
+			}
+			if !sameKeys(keysBefore, cacher.Keys()) {
+				res.Failf("C17", i, "Close changed the memory tier")
+			}
+		case opSize:
+			n := ad.SizeInBytesContained()
+			toks = append(toks, core.Lbl(9, core.N(n)))
+			if n != cacher.SizeInBytesContained() {
+				res.Failf("C17", i, "SizeInBytesContained() = %d, the memory tier says %d", n, cacher.SizeInBytesContained())
+			}
+		case opMaxSize:
+			n := ad.MaxSize()
+			toks = append(toks, core.Lbl(18, core.N(uint64(n))))
+			if n != math.MaxInt64 {
+				res.Failf("C17", i, "MaxSize() = %d, not math.MaxInt64", n)
 			}
 		case opGet:
 			k := a[0].Bytes()
 			v, ok := blobBytes(ad.Get(k))
 			toks = append(toks, core.Lbl(2, ob(v, ok)), core.Lbl(3, core.Bool(ok)))
-			if want, was := putSoFar[string(k)]; was {
+			if want, was := putSoFar[string(k)]; was && !closed {
 				if !ok || !bytes.Equal(v, want) {
 					res.Failf("C17", i, "Get(%s) = (%x,%v) although the key was put with value %x", k, v, ok, want)
 				}
@@ -355,12 +525,24 @@ func (comp) Run(h *core.History, scratch string) *core.Result {
 					res.Hit("get-from-persister")
 				}
 			}
+			if closed {
+				// after Close: found exactly when in the memory tier (the closed persister is skipped)
+				if ok != memBefore[string(k)] || (ok && !bytes.Equal(v, valBefore[string(k)])) {
+					res.Failf("C17", i, "Get(%s) after Close = (%x,%v) although in the memory tier=%v", k, v, ok, memBefore[string(k)])
+				}
+				if _, inDB := persisted(string(k)); inDB && !ok {
+					res.Hit("get-after-close-skips-persister")
+				}
+			}
 		case opHas:
 			k := a[0].Bytes()
 			has := ad.Has(k)
 			toks = append(toks, core.Lbl(4, core.Bool(has)))
-			if _, was := putSoFar[string(k)]; was && !has {
+			if _, was := putSoFar[string(k)]; was && !has && !closed {
 				res.Failf("C17", i, "Has(%s) = false although the key was put", k)
+			}
+			if closed && has != memBefore[string(k)] {
+				res.Failf("C17", i, "Has(%s) after Close = %v although in the memory tier=%v", k, has, memBefore[string(k)])
 			}
 		case opPeek:
 			k := a[0].Bytes()
@@ -409,13 +591,48 @@ func (comp) Run(h *core.History, scratch string) *core.Result {
 		toks = append(toks,
 			core.Lbl(10, core.L(ktoks...)), core.Lbl(11, core.N(uint64(cacher.Len()))), core.Lbl(12, core.N(cacher.SizeInBytesContained())),
 			core.Lbl(13, core.L(ctoks...)), core.Lbl(14, core.L(peeks...)), core.Lbl(15, core.L(hass...)),
-			core.Lbl(16, core.I(int64(ad.Len()))), core.Lbl(17, core.SortedLB(ad.Keys())))
+			core.Lbl(16, core.I(int64(ad.Len()))), core.Lbl(17, core.SortedLB(ad.Keys())), core.Lbl(19, core.Bool(closed)))
 		res.AddObs(toks...)
 
 		// ---- monitors (text of C17)
 		// "every key put so far is still reported by Has and returned by Get with its value, whether it lives
 		// in the bounded in-memory tier or has been spilled" (Get itself refreshes recency, so between Get
 		// operations the two tiers are read without side effect: Peek, then the persister)
+		if closed {
+			// What Close does (Props/C17.v, not the property text, which is about an open persister): the
+			// persister is never touched again; Has / Keys answer from the memory tier alone; a key that
+			// is not in the memory tier is not found even when the persister holds it.
+			now := persisterContents()
+			if len(now) != len(atClose) {
+				res.Failf("C17", i, "the persister changed after Close: %d entries, %d at Close", len(now), len(atClose))
+			}
+			for k, v := range atClose {
+				if w, ok := now[k]; !ok || !bytes.Equal(v, w) {
+					res.Failf("C17", i, "the persister changed after Close: key %s", k)
+				}
+			}
+			for _, k := range alpha {
+				if has := ad.Has(k); has != memAfter[string(k)] {
+					res.Failf("C17", i, "after Close Has(%s) = %v although in the memory tier=%v", k, has, memAfter[string(k)])
+				}
+				if _, inDB := now[string(k)]; inDB && !memAfter[string(k)] {
+					res.Hit("spilled-key-not-found-after-close")
+				}
+			}
+			if got := ad.Keys(); len(got) != len(ckeys) {
+				res.Failf("C17", i, "after Close Keys() has %d keys, the memory tier %d", len(got), len(ckeys))
+			}
+			// the keys put so far that are still in the memory tier keep their value
+			for k, want := range putSoFar {
+				if !memAfter[k] {
+					delete(putSoFar, k) // lost or unreachable: outside the property (closed persister)
+					continue
+				}
+				if v, ok := blobBytes(ad.Peek([]byte(k))); !ok || !bytes.Equal(v, want) {
+					res.Failf("C17", i, "after Close key %s is in the memory tier with (%x,%v), put with value %x", k, v, ok, want)
+				}
+			}
+		}
 		for k, want := range putSoFar {
 			if !ad.Has([]byte(k)) {
 				res.Failf("C17", i, "Has(%s) = false although the key was put (value %x)", k, want)
@@ -429,7 +646,7 @@ func (comp) Run(h *core.History, scratch string) *core.Result {
 			}
 		}
 		// "Entries leave the memory tier only by being written to the persister first"
-		if op.Code != opRemove && op.Code != opClear {
+		if op.Code != opRemove && op.Code != opClear && !closed {
 			for k := range memBefore {
 				if memAfter[k] || len(valBefore[k]) == 0 {
 					continue
